@@ -342,8 +342,8 @@ class State:
         self.pc = []            # branch conditions (z3 bool)
         self.defs = []          # definitional constraints (fresh q,r ...)
         self.divcache = {}
-        self.false_ids = set()  # ids of terms asserted false on this path
-        self.true_ids = set()
+        self.false_ids = {}     # id -> term, for terms asserted false on this path (the term is kept alive: z3 reuses ids of freed ASTs)
+        self.true_ids = {}
         self.conc = {}          # term id -> concrete value chosen by a fork
         self.heap = {}          # boxes: constants, statics, thread-local cells
         self.obs = []           # observations (fmt calls, hash calls ...)
@@ -358,8 +358,8 @@ class State:
         s.pc = list(self.pc)
         s.defs = list(self.defs)
         s.divcache = dict(self.divcache)
-        s.false_ids = set(self.false_ids)
-        s.true_ids = set(self.true_ids)
+        s.false_ids = dict(self.false_ids)
+        s.true_ids = dict(self.true_ids)
         s.conc = dict(self.conc)
         s.heap = dict(self.heap)
         s.obs = list(self.obs)
@@ -381,9 +381,10 @@ class State:
                 raise Infeasible()
             return
         self.pc.append(c)
-        self.true_ids.add(c.get_id())
+        self.true_ids[c.get_id()] = c
         if z3.is_not(c):
-            self.false_ids.add(c.arg(0).get_id())
+            a0 = c.arg(0)
+            self.false_ids[a0.get_id()] = a0
 
     def assume_not(self, c):
         if isinstance(c, bool):
@@ -391,7 +392,7 @@ class State:
                 raise Infeasible()
             return
         self.pc.append(z3.Not(c))
-        self.false_ids.add(c.get_id())
+        self.false_ids[c.get_id()] = c
 
     def constraints(self):
         return self.defs + self.pc
@@ -481,9 +482,10 @@ class State:
                 raise Infeasible()
             return
         self.defs.append(c)
-        self.true_ids.add(c.get_id())
+        self.true_ids[c.get_id()] = c
         if z3.is_not(c):
-            self.false_ids.add(c.arg(0).get_id())
+            a0 = c.arg(0)
+            self.false_ids[a0.get_id()] = a0
 
     def assume_sign(self, t, nonneg):
         """record the sign of an int term in the syntactic forms the models look up"""
@@ -492,12 +494,12 @@ class State:
         ge, lt_ = (t >= 0), (t < 0)
         if nonneg:
             self.defs.append(ge)
-            self.true_ids.add(ge.get_id())
-            self.false_ids.add(lt_.get_id())
+            self.true_ids[ge.get_id()] = ge
+            self.false_ids[lt_.get_id()] = lt_
         else:
             self.defs.append(lt_)
-            self.true_ids.add(lt_.get_id())
-            self.false_ids.add(ge.get_id())
+            self.true_ids[lt_.get_id()] = lt_
+            self.false_ids[ge.get_id()] = ge
 
 
 class Outcome:
@@ -936,11 +938,11 @@ class Executor:
             return t >> k, t & ((1 << k) - 1)
         key = ("p2", t.get_id(), k)
         if key in st.divcache:
-            return st.divcache[key]
+            return st.divcache[key][:2]
         q = T.fresh_int("q2")
         r = T.fresh_int("r2")
         st.define((q, r), (t == q * (1 << k) + r, z3.And(r >= 0, r < (1 << k))))
-        st.divcache[key] = (q, r)
+        st.divcache[key] = (q, r, t)
         return q, r
 
     def tdivmod(self, st, a, b, ty):
@@ -951,7 +953,7 @@ class Executor:
             return T.tdiv_c(a, b)
         key = ("d", T.term_id(a), T.term_id(b))
         if key in st.divcache:
-            return st.divcache[key]
+            return st.divcache[key][:2]
         q = T.fresh_int("q")
         r = T.fresh_int("r")
         signed = INT_TYPES[ty][0]
@@ -974,7 +976,7 @@ class Executor:
             cs.append(z3.If(A >= 0, r >= 0, r <= 0))
             cs.append(z3.And(r < absb, r > -absb))
         st.define((q, r), cs)
-        st.divcache[key] = (q, r)
+        st.divcache[key] = (q, r, a, b)
         return q, r
 
     def binop(self, st, fr, op, a, b):
@@ -1380,11 +1382,11 @@ class Executor:
         disj = T.bor(*guards)
         if not isinstance(disj, bool):
             base.pc.append(disj)
-        base.false_ids = set.intersection(*[s.false_ids for s in sts])
-        base.true_ids = set.intersection(*[s.true_ids for s in sts])
+        base.false_ids = {k: v for k, v in sts[0].false_ids.items() if all(k in s.false_ids for s in sts[1:])}
+        base.true_ids = {k: v for k, v in sts[0].true_ids.items() if all(k in s.true_ids for s in sts[1:])}
         base.divcache = {}
         for k in sts[0].divcache:
-            if all(k in s.divcache and s.divcache[k] is sts[0].divcache[k] for s in sts[1:]):
+            if all(k in s.divcache and s.divcache[k][0] is sts[0].divcache[k][0] for s in sts[1:]):
                 base.divcache[k] = sts[0].divcache[k]
         # merge frames
         for fi in range(len(base.frames)):
@@ -1474,6 +1476,7 @@ class Executor:
                 s2 = st.copy()
                 s2.pc.append(term == v)
                 s2.conc[term.get_id()] = v
+                s2.tags[("keep", term.get_id())] = term
                 out.append(s2)
             return out
         out = []
